@@ -18,6 +18,8 @@ use std::net::{IpAddr, Ipv4Addr, SocketAddr};
 
 #[derive(Clone, Debug, PartialEq, Eq)]
 pub enum BodyFault {
+    /// the file is cut to `.1` bytes by someone else once `.0` bytes of it have been read
+    ShrinksWhileRead(u64, u64),
     None,
     Missing,
     TruncatedTo(usize),
@@ -60,6 +62,10 @@ fn build_faulty(spec: &RSpec, dir: &RunDir, tag: &str, fault: &BodyFault) -> Res
                 f.set_len(*t as u64).unwrap();
                 gen::count("fault.body_file_truncated");
             }
+            BodyFault::ShrinksWhileRead(after, to) => with(|w| {
+                let idx = w.fs.opened.len();
+                w.fs.shrink_after.insert(idx, (*after, *to));
+            }),
             BodyFault::OpenError => {
                 let k = gen::file_error_kind();
                 with(|w| w.fs.open_faults.push(k))
@@ -77,6 +83,10 @@ fn build_faulty(spec: &RSpec, dir: &RunDir, tag: &str, fault: &BodyFault) -> Res
 }
 
 fn gen_body_fault(len: usize) -> BodyFault {
+    if len >= 2 && gen::ratio(1, 6) {
+        let after = 1 + gen::below(len as u32 - 1) as u64;
+        return BodyFault::ShrinksWhileRead(after, gen::pick(&[0u64, after, (len as u64) - 1]));
+    }
     match gen::below(5) {
         0 => BodyFault::Missing,
         1 => BodyFault::TruncatedTo(*[0usize, 1, len / 2, len.saturating_sub(1)].get(gen::below(4) as usize).unwrap()),
@@ -502,7 +512,7 @@ pub fn spec() -> PropertySpec {
     PropertySpec {
         id: "C08",
         level: "fault_enumeration",
-        rule: "Same fault plans at three levels. (1) write_http_response into a scripted sink that fails after exactly k accepted bytes for EVERY k in 0..=len (responses <= 700 bytes quick / 4096 thorough; head/body boundaries +-1 and drawn k for larger ones), combined with short writes and Pending; body files missing, open error, read error at offset, truncated to {0,1,half,len-1,random}. (2) HttpConn::write_response on a simulated socket with the same faults, followed by further calls. (3) the full simulated server: server-side write error at k, client RST at k, client FIN-and-stop-reading at k, body-file faults. Oracle: R = fault-free serialisation of the same response (second execution); bytes on the wire are a prefix of R; after a partial send the write side is shut down and nothing else is ever written (no second status line); after a zero-byte failure one well-formed 500 is still possible; no task panic. probe.fault_offsets counts individual (response, k) executions. non-trivial = a fault that actually interferes. Error kinds are drawn from 15 kinds; one fault in eight is a TRANSIENT Interrupted error (reported once, then the sink / socket works again): giving up (error + correct prefix + the shutdown rules) and a correct retry (success + exactly the correct bytes) are both accepted, resent bytes are not.",
+        rule: "Same fault plans at three levels. (1) write_http_response into a scripted sink that fails after exactly k accepted bytes for EVERY k in 0..=len (responses <= 700 bytes quick / 4096 thorough; head/body boundaries +-1 and drawn k for larger ones), combined with short writes and Pending; body files missing, open error, read error at offset, truncated to {0,1,half,len-1,random}. (2) HttpConn::write_response on a simulated socket with the same faults, followed by further calls. (3) the full simulated server: server-side write error at k, client RST at k, client FIN-and-stop-reading at k, body-file faults. Oracle: R = fault-free serialisation of the same response (second execution); bytes on the wire are a prefix of R; after a partial send the write side is shut down and nothing else is ever written (no second status line); after a zero-byte failure one well-formed 500 is still possible; no task panic. probe.fault_offsets counts individual (response, k) executions. non-trivial = a fault that actually interferes. Error kinds are drawn from 15 kinds; one fault in eight is a TRANSIENT Interrupted error (reported once, then the sink / socket works again): giving up (error + correct prefix + the shutdown rules) and a correct retry (success + exactly the correct bytes) are both accepted, resent bytes are not. Body files may also be cut by another process WHILE they are being read (after r bytes, to 0 / r / len-1 bytes).",
         scenarios: vec![
             Scenario { name: "c08.writer_fault", property: "C08", func: writer_fault, runs_quick: 20_000, runs_thorough: 300_000, doc: "every sink-failure offset" },
             Scenario { name: "c08.body_fault", property: "C08", func: body_fault, runs_quick: 400_000, runs_thorough: 8_000_000, doc: "body-source faults at the serialiser" },
@@ -510,10 +520,10 @@ pub fn spec() -> PropertySpec {
             Scenario { name: "c08.server", property: "C08", func: server_level, runs_quick: 300_000, runs_thorough: 6_000_000, doc: "server level" },
         ],
         required_probes: vec![
-            "fault.writer_error", "fault.body_file_missing", "fault.body_file_truncated", "fault.fs_open", "fault.fs_read", "fault.server_write_error", "fault.client_rst", "fault.client_stops_reading",
+            "fault.writer_error", "fault.body_file_missing", "fault.body_file_truncated", "fault.fs_open", "fault.fs_read", "fault.fs_file_shrinks_while_read", "fault.writer_error_transient", "fault.server_write_error", "fault.client_rst", "fault.client_stops_reading",
             "probe.failed_after_some_bytes", "probe.failed_with_zero_bytes", "probe.partial_response_on_wire", "probe.single_500_instead",
         ],
         components: components_server(),
-        assumptions: vec!["a socket that failed once stays failed", "kernel-level partial segment loss is below the model"],
+        assumptions: vec!["a socket that failed once stays failed (except the transient Interrupted fault, which is reported once)", "kernel-level partial segment loss is below the model"],
     }
 }
